@@ -5,8 +5,8 @@ RUNTIME_CORE = ["sends", "recvs", "closes", "makechans", "gostmts", "ctxchecks",
 
 FACTMAP = {
     "C01": RUNTIME_CORE + ["sig_Program_Run"],
-    "C02": RUNTIME_CORE + ["body_Batch", "el_case_BatchMsg"],
-    "C03": RUNTIME_CORE + ["body_Sequence", "el_case_sequenceMsg"],
+    "C02": RUNTIME_CORE + ["el_case_BatchMsg"],        # Batch itself: `cmdfns` stream (behavioural)
+    "C03": RUNTIME_CORE + ["el_case_sequenceMsg"],     # Sequence itself: `cmdfns` stream
     "C04": RUNTIME_CORE + ["order_Program_shutdown", "order_Program_Run", "order_Program_recoverFromPanic", "sig_Program_Run",
                            "body_Program_readLoop", "body_Program_waitForReadLoop", "body_channelHandlers_shutdown",
                            "body_Program_handleSignals", "body_Program_handleResize", "body_Program_listenForResize",
@@ -15,7 +15,7 @@ FACTMAP = {
                            "order_standardRenderer_stop", "order_standardRenderer_kill", "body_standardRenderer_listen"],
     "C05": ["order_Program_shutdown", "order_Program_restoreTerminalState", "order_Program_Run", "order_Program_initTerminal",
             "order_Program_disableMouse", "order_Program_recoverFromPanic", "calls"],
-    "C07": ["order_Program_Run", "order_Program_shutdown", "order_standardRenderer_stop", "body_standardRenderer_write", "calls", "locks"],
+    "C07": ["order_Program_Run", "order_Program_shutdown", "order_standardRenderer_stop", "calls", "locks"],
     "C12": ["order_Program_Run", "order_Program_disableMouse", "el_case_enterAltScreenMsg", "el_case_exitAltScreenMsg",
             "el_case_enableMouseCellMotionMsg_enableMouseAllMotionMsg", "el_case_disableMouseMsg", "el_case_showCursorMsg",
             "el_case_hideCursorMsg", "el_case_enableBracketedPasteMsg", "el_case_disableBracketedPasteMsg",
@@ -28,10 +28,10 @@ FACTMAP = {
             "order_standardRenderer_start"],
     "C18": ["body_Program_handleSignals", "body_Program_handleResize", "body_Program_listenForResize", "body_Program_checkResize",
             "el_case_windowSizeMsg", "order_Program_ReleaseTerminal", "order_Program_RestoreTerminal", "order_Program_Run"],
-    "C19": ["body_newRenderer", "body_WithFPS", "calls", "body_standardRenderer_listen", "body_standardRenderer_start", "locks"],
+    "C19": ["body_WithFPS", "calls", "body_standardRenderer_listen", "body_standardRenderer_start", "locks"],
     "C20": ["body_Every", "body_Tick"],
     "C09": ["bufsize"],
     "C15": ["bufsize"],
-    "C14": ["body_standardRenderer_handleMessages", "body_Program_Println", "body_Program_Printf", "locks"],
-    "C06": ["body_standardRenderer_write", "body_standardRenderer_repaint", "body_standardRenderer_handleMessages", "locks"],
+    "C14": ["body_Program_Println", "body_Program_Printf", "locks"],   # handleMessages / write / repaint themselves: vt stream (behavioural)
+    "C06": ["locks"],
 }
